@@ -1,16 +1,7 @@
-//go:build verif_harness
+//go:build verif_harness && cgo
 
 package crypto
 
-func assertEqBytes(got, want []byte, what string) {
-	verifAssert(len(got) == len(want), what+" (length)")
-	if len(got) != len(want) {
-		return
-	}
-	for i := range got {
-		verifAssert(got[i] == want[i], what)
-	}
-}
 
 // zzC05_E1_canonical: every 48-byte string that E1_read_bytes accepts re-encodes to itself.
 func zzC05_E1_canonical(n int) {
